@@ -281,7 +281,12 @@ pub fn inputs_c06(r: &mut Rng, n: usize, tier: &str, out: &mut dyn Write) {
                 // a provider loaded from a generated IERS-format file
                 let k = 1 + r.below(6) as usize;
                 let mut txt = String::from("# generated\n#$ 1\n");
-                let mut ts0: u64 = 2_272_060_800 + 86_400 * r.below(1000);
+                // time stamps are u64 seconds: also entries around and beyond 2^32 s (NTP era rollover in 2036)
+                let mut ts0: u64 = match r.below(4) {
+                    0 => 4_294_967_296 - 86_400 * r.below(3),
+                    1 => 4_294_967_296 + 86_400 * r.below(100_000),
+                    _ => 2_272_060_800 + 86_400 * r.below(1000),
+                };
                 let mut off: u64 = r.below(20);
                 let mut probes = Vec::new();
                 // layout variations the IERS format allows ("A blank line should be ignored", comment lines anywhere,
